@@ -64,7 +64,7 @@ func (nullFinder) FindDependencies(fsys interface{ Open(string) (interface{}, er
 	return nil
 }
 
-var sNames = []string{"a", "b", "d", "e", "main.tf", ".git", ".terraform", "modules", "logs", "x y", "é", "keep"}
+var sNames = []string{"a", "b", "d", "e", "main.tf", ".git", ".terraform", "modules", "logs", "x y", "é", "keep", "..data", "...", ".hidden"}
 var sRuleFiles = []string{"", "", "logs/\n", "*.log\n", "d/\n!d/keep\n", "a\n", "d\n", "/e\n", "d/*\n", "!.terraform/\n", "logs/\nb\n", "**/keep\n"}
 
 func genFetched(r *Rng) []PNode {
